@@ -16,6 +16,7 @@ package model
 
 import (
 	"errors"
+	"fmt"
 	"strings"
 
 	"github.com/casbin/casbin/v2/log"
@@ -68,7 +69,14 @@ func (ast *Assertion) buildIncrementalRoleLinks(rm rbac.RoleManager, op PolicyOp
 	return nil
 }
 
-func (ast *Assertion) buildRoleLinks(rm rbac.RoleManager) error {
+func (ast *Assertion) buildRoleLinks(rm rbac.RoleManager) (err error) {
+	// a matching function may panic on a name that is not a valid pattern (the regular-expression
+	// built-ins do): a policy that cannot be linked is reported, like any other malformed rule
+	defer func() {
+		if r := recover(); r != nil {
+			err = fmt.Errorf("invalid grouping policy for %s: %v", ast.Key, r)
+		}
+	}()
 	ast.RM = rm
 	count := strings.Count(ast.Value, "_")
 	if count < 2 {
